@@ -10,7 +10,7 @@ def pl_dtype(name: str):
     import polars as pl
 
     return {"int64": pl.Int64, "float64": pl.Float64, "str": pl.String, "object": pl.String, "bool": pl.Boolean,
-            "none": None}[name]
+            "Int64": pl.Int64, "none": None}[name]
 
 
 def pl_frame(fr: Dict[str, Any]):
